@@ -534,8 +534,32 @@ def _getnewargs_model(tree: Tree, attr: str) -> dict | None:
     world = DecoratorWorld.of(tree)
     out = {"n": 0, "name": "", "where": "", "deep": {}, "not_tuple": [], "one_name_getter": [], "incomplete": [], "other": [], "raises": []}
     any_hook = False
+    def nested(label: str) -> MObj:
+        v = MObj(label, kinds={"expr"}, open=False)
+        v.attrs["__dataclass_fields__"] = {"x": MObj("field x", {"name": "x", "metadata": {}}, kinds={"Field"}, open=False)}
+        v.attrs["x"] = MObj(f"{label}.x", kinds={"expr"}, open=False)
+        v.attrs["__iter__"] = _not_iterable
+        return v
+
+    # every field layout; then the layouts whose trailing fields are OPTIONAL (they carry a default), with every
+    # combination of "the instance holds the default object itself" / "the instance holds another value"
+    scenarios: list[tuple[tuple, tuple, tuple]] = [(sig, (), ()) for sig in ALL_SIGNATURES]
     for sig in ALL_SIGNATURES:
-        cls = world.model_class(sig)
+        for first_optional in range(len(sig)):
+            n_opt = len(sig) - first_optional
+            if n_opt > 2:
+                continue
+            for holds in itertools.product((True, False), repeat=n_opt):
+                scenarios.append((sig, tuple(i >= first_optional for i in range(len(sig))), (False,) * first_optional + holds))
+    default_objects: dict[tuple, tuple] = {}
+    for sig, optional, holds_default in scenarios:
+        defaults: tuple = ()
+        if optional:
+            dkey = (sig, optional)
+            if dkey not in default_objects:
+                default_objects[dkey] = tuple(nested(f"default of a{i}") if o else None for i, o in enumerate(optional))
+            defaults = default_objects[dkey]
+        cls = world.model_class(sig, defaults) if optional else world.model_class(sig)
         hook = cls.installed.get(attr)  # type: ignore[attr-defined]
         if hook is None:
             continue
@@ -544,11 +568,10 @@ def _getnewargs_model(tree: Tree, attr: str) -> dict | None:
             out["name"], out["where"] = world.describe(hook)
         values = []
         for i, s in enumerate(sig):
-            v = MObj(f"a{i}: nested expression" if s else f"a{i}: nested expression in a non-SymPy field", kinds={"expr"}, open=False)
-            v.attrs["__dataclass_fields__"] = {"x": MObj("field x", {"name": "x", "metadata": {}}, kinds={"Field"}, open=False)}
-            v.attrs["x"] = MObj(f"a{i}.x", kinds={"expr"}, open=False)
-            v.attrs["__iter__"] = _not_iterable
-            values.append(v)
+            if optional and holds_default[i]:
+                values.append(defaults[i])
+                continue
+            values.append(nested(f"a{i}: nested expression" if s else f"a{i}: nested expression in a non-SymPy field"))
         me = MObj("self", {f"a{i}": v for i, v in enumerate(values)}, kinds={"expr"}, open=False)
         me.attrs.update({"__class__": cls, "args": tuple(v for v, s in zip(values, sig) if s), "__iter__": _not_iterable})
         me.attrs["_args"] = me.attrs["args"]
@@ -556,6 +579,8 @@ def _getnewargs_model(tree: Tree, attr: str) -> dict | None:
         got = _interpret(f"{attr} hook", lambda ex=ex, hook=hook, me=me: ex.apply(hook, [me], {}))
         out["n"] += 1
         label = f"fields <{_sig(sig)}>"
+        if optional:
+            label += " (optional: " + ", ".join(f"a{i} {'holds its default' if holds_default[i] else 'set by the caller'}" for i, o in enumerate(optional) if o) + ")"
         notes = world.notes_since(ex)
         deep = [n for n in notes if n[0] == "deep"]
         for n in deep:
@@ -569,8 +594,10 @@ def _getnewargs_model(tree: Tree, attr: str) -> dict | None:
         if len(got) == len(values) and all(x is y for x, y in zip(got, values)):
             continue
         sympy_values = [v for v, s in zip(values, sig) if s]
-        if not deep and len(got) == len(sympy_values) and all(x is y for x, y in zip(got, sympy_values)):
+        if not deep and len(got) == len(sympy_values) and all(x is y for x, y in zip(got, sympy_values)) and not optional:
             out["incomplete"].append(f"{label}: returns {tuple(got)!r}")
+        elif not deep and optional and len(got) < len(values) and all(x is y for x, y in zip(got, values)) and all(h for h in holds_default[len(got):]):
+            continue  # only trailing fields that hold their default are left out: __new__ fills them in again
         elif not deep:
             out["other"].append(f"{label}: returns {tuple(got)!r}, the field values are {tuple(values)!r}")
     return out if any_hook else None
